@@ -37,6 +37,22 @@ def exc_text(tsel):
     return "x" * 300
 
 
+def _raise_kind(hsel, text):
+    # exception classes a failing handler may raise (a lookup miss inside the handler is the interesting one:
+    # it must not be mistaken for "unknown tool/resource")
+    if hsel == 7:
+        raise KeyError(text)
+    if hsel == 8:
+        raise IndexError(text)
+    if hsel == 9:
+        raise TypeError(text)
+    if hsel == 10:
+        raise LookupError(text)
+    if hsel == 11:
+        raise AttributeError(text)
+    raise RuntimeError(text)
+
+
 def make_server(hsel, text="boom"):
     s = SRV.MCPServer("srv", "1.0")
 
@@ -53,13 +69,17 @@ def make_server(hsel, text="boom"):
             return _Obj()
         if hsel == 5:
             raise Exception("tool failed")
-        raise ValueError(text)
+        if hsel == 6:
+            raise ValueError(text)
+        _raise_kind(hsel, text)
 
     async def res():
         if hsel == 5:
             raise Exception("resource failed")
         if hsel == 6:
             raise ValueError(text)
+        if hsel >= 7:
+            _raise_kind(hsel, text)
         if hsel == 3:
             return None
         return "content"
@@ -68,6 +88,8 @@ def make_server(hsel, text="boom"):
         return s.protocol_handler.create_response(message.id, {"ok": True}), None
 
     async def custom_raise(message, session_id):
+        if hsel >= 7:
+            _raise_kind(hsel, text)
         raise ValueError(text)
 
     s.register_tool("t", tool, {"type": "object"}, "a tool")
@@ -179,7 +201,7 @@ def dispatch(method, has_id, rid, psel, leaf, hsel, text="boom"):
         uri = (params or {}).get("uri")
         if uri != "res://r":
             return "ok" if code in ((-32602,) if isinstance(uri, str) or uri is None else (-32602, -32603)) else "unknown-resource-not-32602"
-        if hsel in (5, 6):
+        if hsel >= 5:
             return "ok" if code == -32603 else "raising-resource-not-32603"
         return "ok" if has_r else "resource-result-became-error"
     if method == "notifications/initialized":
@@ -289,3 +311,36 @@ def near_version(i, mode, k, c):
 def dispatch_exc(method, has_id, rid, psel, hsel, tsel):
     """failing handlers with every exception text of the corpus (incl. empty and multi-line)"""
     return dispatch(method, has_id, rid, psel, "x", hsel, exc_text(tsel))
+
+
+def reinit(first_idx, v):
+    """two handshakes on one handler: the second presents the session id issued by the first and requests v;
+    the session the second handshake returns must record the version the second answer carries"""
+    s = make_server(0)
+    sup = list(VER.SUPPORTED_VERSIONS)
+    first = sup[0] if first_idx == 0 else (sup[1] if first_idx == 1 else sup[-1])
+
+    def init(version, sid):
+        msg = JSONRPCMessage(jsonrpc="2.0", id=1, method="initialize", params={"protocolVersion": version, "clientInfo": {"name": "c", "version": "1"}, "capabilities": {}})
+        return drive(s.protocol_handler.handle_message(msg, sid))
+
+    r1, sid1 = init(first, None)
+    if r1 is None or sid1 is None:
+        return "first-handshake-failed"
+    r2, sid2 = init(v, sid1)
+    if r2 is None:
+        return "no-response"
+    d = dump(r2)
+    if "error" in d:
+        return "ok"
+    ans = (d.get("result") or {}).get("protocolVersion")
+    if not _in(ans, sup):
+        return "acknowledged-unsupported-version"
+    if _in(v, sup) and ans != v:
+        return "supported-request-answered-with-other-version"
+    if sid2 is None:
+        return "no-session"
+    rec = s.protocol_handler.session_manager.get_session(sid2)
+    if rec is None or rec.protocol_version != ans:
+        return "session-version-differs-from-answer"
+    return "ok"
